@@ -951,6 +951,7 @@ pub fn c10(rec: &RunRecord) -> Vec<Violation> {
         let Some(state) = &round.snapshot else { continue };
         let res = std::panic::catch_unwind(std::panic::AssertUnwindSafe(|| {
             let mut out = Vec::new();
+            let mut marks: Vec<(u8, bool, bool)> = Vec::new();
             let mut per_flow: Vec<(u64, Vec<u8>, u8)> = Vec::new();
             let mut flow_ids = vec![trippy_core::State::default_flow_id()];
             flow_ids.extend(state.flows().iter().map(|(_, id)| *id));
@@ -965,13 +966,14 @@ pub fn c10(rec: &RunRecord) -> Vec<Violation> {
                     out = hops.iter().map(trippy_core::Hop::ttl).collect();
                     let th_ttl = th.ttl();
                     out.push(th_ttl);
+                    marks = hops.iter().map(|h| (h.ttl(), state.is_target(h, fid), state.is_in_round(h, fid))).collect();
                 } else {
                     per_flow.push((fid.0, hops.iter().map(trippy_core::Hop::ttl).collect(), th.ttl()));
                 }
             }
-            (out, per_flow, state.round_flow_id().0)
+            (out, per_flow, state.round_flow_id().0, marks)
         }));
-        let Ok((mut ttls, per_flow, round_flow)) = res else {
+        let Ok((mut ttls, per_flow, round_flow, marks)) = res else {
             v.push(Violation::new("C10", "c10.query-panicked", format!("round {k}: querying the hop table panicked")));
             continue;
         };
@@ -998,6 +1000,21 @@ pub fn c10(rec: &RunRecord) -> Vec<Violation> {
                         break;
                     }
                 }
+            }
+        }
+        // which hops count as "the target" and as "part of the latest round" follows the
+        // latest round's path length alone (a round in which nothing answered has neither)
+        for (ttl, is_target, in_round) in &marks {
+            if *ttl == 0 {
+                continue;
+            }
+            if *is_target != (*ttl == round.largest_ttl) || *in_round != (*ttl <= round.largest_ttl) {
+                v.push(Violation::new(
+                    "C10",
+                    "c10.target-marks",
+                    format!("round {k}: hop with ttl {ttl} is marked target={is_target} in-round={in_round}, the latest round's path length is {}", round.largest_ttl),
+                ));
+                break;
             }
         }
         let target_hop_ttl = ttls.pop().unwrap_or(0);
@@ -2045,6 +2062,36 @@ pub fn c19(rec: &RunRecord) -> Vec<Violation> {
                 ));
             }
         }
+        // the table of the flow this round went to shows, for the hops of this round, what
+        // the combined table shows (both were brought up to date by this very round)
+        let rf = state.round_flow_id();
+        // (only while new flows can still be registered: then this round went to `rf` for certain)
+        if rf.0 != 0 && state.flows().iter().any(|(_, id)| *id == rf) && state.flows().len() < t.max_flows && v.is_empty() {
+            // (hops answered in this round: a hop that stayed silent keeps whatever an earlier
+            // round left in either table)
+            let probed: Vec<u8> = round
+                .probes
+                .iter()
+                .filter_map(|p| if let ProbeStatus::Complete(c) = p { Some(c.ttl.0) } else { None })
+                .filter(|t| *t <= round.largest_ttl)
+                .collect();
+            let by_flow = state.hops_for_flow(rf);
+            for hop in hops {
+                if !probed.contains(&hop.ttl()) {
+                    continue;
+                }
+                if let Some(fh) = by_flow.iter().find(|h| h.ttl() == hop.ttl()) {
+                    if fh.last_nat_status() != hop.last_nat_status() {
+                        v.push(Violation::new(
+                            "C19",
+                            "c19.flow-status",
+                            format!("after round {k}, ttl {}: flow {} shows NAT status {:?}, the combined table {:?}", hop.ttl(), rf.0, fh.last_nat_status(), hop.last_nat_status()),
+                        ));
+                        break;
+                    }
+                }
+            }
+        }
         if v.len() > 8 {
             break;
         }
@@ -2099,7 +2146,31 @@ fn expected_extensions(objs: &[crate::wire::ExtObject]) -> trippy_core::Extensio
 pub fn c14(rec: &RunRecord) -> Vec<Violation> {
     let mut v = Vec::new();
     let t = &rec.sc.tracer;
+    // what the last answered probe of each ttl reported (with snapshots only): a hop shows
+    // the objects of its latest response, none if that response carried none
+    let mut last_ext: Vec<Option<Option<trippy_core::Extensions>>> = vec![None; 256];
     for (k, round) in rec.rounds.iter().enumerate() {
+        for p in &round.probes {
+            if let ProbeStatus::Complete(c) = p {
+                last_ext[usize::from(c.ttl.0)] = Some(c.extensions.clone());
+            }
+        }
+        if let Some(state) = &round.snapshot {
+            if rec.sc.clear_after_round.is_none() {
+                for hop in state.hops() {
+                    if let Some(want) = &last_ext[usize::from(hop.ttl())] {
+                        if hop.ttl() > 0 && hop.extensions() != want.as_ref() {
+                            v.push(Violation::new(
+                                "C14",
+                                "c14.hop-extensions-stale",
+                                format!("after round {k}, ttl {}: the hop shows {:?}, its latest response carried {:?}", hop.ttl(), hop.extensions(), want),
+                            ));
+                            break;
+                        }
+                    }
+                }
+            }
+        }
         let attempts = attempts_of_round(rec, k);
         if attempts.len() != round.probes.len() {
             continue;
